@@ -97,6 +97,12 @@ class BaseCtx:
     def replace(self, f, handler):
         """use a callee's contract instead of its body (symbolic mode only; the contract is proved by its own obligation)"""
         pass
+    def loop_contract(self, qualname, ordinal, handler):
+        """replace the body of the ordinal-th loop of a repository function by its contract (symbolic mode only)"""
+        pass
+    def axiom_inverse(self, f, g, proved_by):
+        """forall x. g(f(x)) == x for two opaque spec functions of one argument (a lemma proved by `proved_by`)"""
+        pass
     def replace_wordfn(self, f, specfn):
         """callee f maps Bits words to a Bits word and is specified by the word function specfn(w, *values)"""
         def h(I, args, kw):
